@@ -85,8 +85,12 @@ func lawSearch(ctx *Ctx, p *Pool, m [][]int) (nontrivial int) {
 					if strict {
 						exp = "<0"
 					}
-					res.violate(Violation{Eco: e.Name, Kind: "transitivity", Input: []string{p.Strs[i], p.Strs[j], p.Strs[k]},
-						Expected: fmt.Sprintf("cmp(a,b)=%d cmp(b,c)=%d so cmp(a,c)%s", m[i][j], m[j][k], exp), Actual: fmt.Sprint(m[i][k])})
+					v := Violation{Eco: e.Name, Kind: "transitivity", Input: []string{p.Strs[i], p.Strs[j], p.Strs[k]},
+						Expected: fmt.Sprintf("cmp(a,b)=%d cmp(b,c)=%d so cmp(a,c)%s", m[i][j], m[j][k], exp), Actual: fmt.Sprint(m[i][k])}
+					if e.Name == "maven" && mavenMix([]any{p.Vals[i], p.Vals[j], p.Vals[k]}) {
+						v.Finding = "F-maven-order-cycle"
+					}
+					res.violate(v)
 				}
 			}
 		}
